@@ -45,23 +45,23 @@ CLAIMED = {
 
 # later extensions of the checks (appended to the level texts above)
 EXTRA = {
-    "C01": " Also: readers with a put for the same key in flight; a second announcer behind the writer's IP. Reads up to 75 virtual minutes after the write.",
-    "C02": " Also: a listener-less lookup (get_closest_nodes) that a get_immutable joins; the Byzantine-voted address pings the reader. A veteran tail (more than 1000 further lookups, then recent targets asked again).",
+    "C01": " Also: readers with a put for the same key in flight; a second announcer behind the writer's IP. Reads up to 75 virtual minutes after the write. With the same lookup in flight both callers are judged.",
+    "C02": " Also: a listener-less lookup (get_closest_nodes) that a get_immutable joins; the Byzantine-voted address pings the reader. A veteran tail (more than 1000 further lookups, then recent targets asked again). Another info hash read afterwards.",
     "C03": " Also: announce_peer boundary ports; exact lazy-rotation count in the token model. A request filter whose verdict depends on the request; the server's own application writing a key.",
     "C04": " Every second run is one element of the exhaustive enumeration of histories over a 40-symbol alphabet (put key x seq x cas x value, get key x filter): depth <= 2 x capacity 1|2 in the quick tier, depth 3 in the thorough tier; the rest is sampled.",
-    "C05": " Also: generous peers (60..75 extra nodes per lookup answer) and well-formed wrong-kind replies. Future-dated valid signed announcements read before their timestamp; a slow consumer holding a value stream.",
+    "C05": " Also: generous peers (60..75 extra nodes per lookup answer) and well-formed wrong-kind replies. Future-dated valid signed announcements read before their timestamp; a slow consumer holding a value stream. An ageing tail (peers fall silent, 21..26 minutes, then probes).",
     "C06": " Also: a public caller that re-keys to a BEP42 id in the middle of a train of bootstrapped() calls; bursts of 132..170 lookups on distinct targets. A deep network (a lookup contacting more than 200 addresses); get_mutable with a seq filter.",
     "C07": " Also: a late-answer family (relays with dead contacts keep the lookup alive while late peers answer after 0.52-1.4 s; late answers that certainly count are decided from the trace, ambiguous ones suspend the verdicts); the same lookup repeated after some of its answerers died. A busy socket (several other lookups with slow peers on the same node).",
-    "C08": " Also: token-bearing extra nodes for mutable puts (majority over all store requests), a put started from the cache while a lookup of the same target comes back empty-handed (rule: no query error while a store request is outstanding that is then acknowledged in time), read-only flagged write replies. A key that already holds an item with the same seq and another value.",
-    "C11": " Also: mixed address classes (LAN / loopback / link-local and routable peers and readers) and same-IP same-prefix sibling peers. Stale aliases (a live peer listed under an id it no longer has).",
+    "C08": " Also: token-bearing extra nodes for mutable puts (majority over all store requests), a put started from the cache while a lookup of the same target comes back empty-handed (rule: no query error while a store request is outstanding that is then acknowledged in time), read-only flagged write replies. A key that already holds an item with the same seq and another value. Very slow links judged with the request timeout the writer itself reports.",
+    "C11": " Also: mixed address classes (LAN / loopback / link-local and routable peers and readers) and same-IP same-prefix sibling peers. Stale aliases (a live peer listed under an id it no longer has). A lone peer leaving its bucket, then the first round of a fresh lookup checked against the table snapshot.",
     "C09": " Also: late repliers, garbage contacts, tid aliases on veteran sockets, and an asked-again family (a peer slow on one request is asked again before its late answer arrives).",
     "C12": " Also: refresh rule (a re-added known node has age zero), scripted peers restarting under a new id on their address.",
     "C17": " Also: warm cache (both puts start from cached closest nodes); a call refused with ConflictRisk has not had its item sent.",
-    "C13": " Also: promotion runs (adaptive nodes that switched to server mode at their first 15-minute refresh are held by another table and queried by lookups); aged large networks (90..140 servers, 21..44 virtual minutes, the knows-graph stays strongly connected). Every in-time responder of a joiner is in its tables after the bootstrap.",
+    "C13": " Also: promotion runs (adaptive nodes that switched to server mode at their first 15-minute refresh are held by another table and queried by lookups); aged large networks (90..140 servers, 21..44 virtual minutes, the knows-graph stays strongly connected). Every in-time responder of a joiner is in its tables after the bootstrap. The early-bird node asked before its bootstrap node is up.",
     "C14": " Also: busy-node runs (a lookup every 200-450 ms for a virtual hour with a peer dead for good), partitions, suspensions, slow links; rule (e): a find_node for the node's own id within every 15-minute window.",
     "C15": " Also: exact lazy-rotation count (must-reject when two rotations certainly lie between issue and use), guessed-token floods and requester crowds between issue and use, re-key of the server in the middle of a history.",
-    "C16": " Also: a late-holder family (the newest item arrives after the request timeout while the lookup is alive). Several callers sharing one lookup.",
-    "C18": " Also: slow path to the node's own address; wrong address voted for the first 20..280 s. A reachable node most of whose advertised peers are dead.",
+    "C16": " Also: a late-holder family (the newest item arrives after the request timeout while the lookup is alive). Several callers sharing one lookup. A forger replica (authentic key and signature over other content).",
+    "C18": " Also: slow path to the node's own address; wrong address voted for the first 20..280 s. A reachable node most of whose advertised peers are dead. The node's own address listed under a previous incarnation's id.",
     "C20": " Also: store floods against mid-size and default per-info-hash capacities; an address-vote change with a put riding on a find_node.",
 }
 
